@@ -62,7 +62,7 @@ Proof. intros H. eapply FInv_same_fs; [| |exact H]; simpl; auto. Qed.
 (* ---- the tensor-writing part of a plan never names a path *)
 Definition nofs (a : act) : bool :=
   match a with
-  | AMkdtemp _ | AOpenW _ | ACopymode _ _ | AReplace _ _ | ARemove _ | ARmdir _ => false
+  | AMkdtemp _ | AOpenW _ | ACopymode _ _ | AReplace _ _ | ARemove _ | ARmdir _ | AOpenRW _ => false
   | _ => true
   end.
 
@@ -106,29 +106,44 @@ Proof. induction small; simpl; [reflexivity|exact IHsmall]. Qed.
 
 (* ---- a single-file plan is safe for any set S containing the temp dir, the temp file and the
    destination *)
+Lemma writer_safe S tens sc tmpf : S tmpf = true -> prog_all (safeS S) (writer tens sc tmpf) = true.
+Proof.
+  intros Hf. unfold writer. destruct (sc_par sc) as [total|].
+  - unfold writer_parallel. cbn [prog_all forallb safeS]. rewrite Hf. cbn [andb].
+    destruct (sc_tensors sc) as [|[off0 sp0] r]; [reflexivity|]. cbn [prog_all forallb safeS]. rewrite Hf. cbn [andb].
+    rewrite (forallb_impl _ _ _ (nofs_safe S) (cb_nofs _ _)). cbn [andb].
+    apply andb_true_intro; split; [|reflexivity]. rewrite forallb_app.
+    apply andb_true_intro; split; (eapply forallb_impl; [apply nofs_safe|]); [apply tofile_nofs|apply tensors_nofs].
+  - unfold writer_serial. simpl. rewrite Hf. simpl. rewrite andb_true_r.
+    eapply forallb_impl; [apply nofs_safe | apply tensors_nofs].
+Qed.
+
 Lemma plan_single_safe S fs tens sc :
   S (sc_tmpd sc) = true -> S (tmpf_of sc (dest_of fs (sc_req sc))) = true ->
   S (dest_of fs (sc_req sc)) = true ->
   prog_all (safeS S) (plan_single fs tens sc) = true.
 Proof.
-  intros Hd Hf Hdest. unfold plan_single. simpl.
+  intros Hd Hf Hdest. unfold plan_single.
+  cbn [prog_all]. rewrite (writer_safe S tens sc _ Hf).
   repeat (apply andb_true_intro; split); try reflexivity.
-  - unfold plan_pre. simpl. rewrite !forallb_app. apply andb_true_intro. split.
+  - change (forallb (safeS S) ((if is_link fs (sc_req sc) then [ARealpath (sc_req sc)] else [])
+       ++ map (probe_act fs tens sc) (ext_handles (sc_tensors sc)) ++ [AMkdtemp (sc_tmpd sc)]) = true).
+    rewrite !forallb_app. apply andb_true_intro. split.
     + destruct (is_link fs (sc_req sc)); reflexivity.
     + apply andb_true_intro. split.
       * apply forallb_map_const. intros h. unfold probe_act.
         destruct (has_nul (tpath tens h)); [reflexivity|]. destruct (is_alias fs sc (tpath tens h)); reflexivity.
       * simpl. rewrite Hd. reflexivity.
-  - rewrite Hf. reflexivity.
-  - eapply forallb_impl; [apply nofs_safe | apply tensors_nofs].
   - unfold plan_tail. rewrite forallb_app. apply andb_true_intro. split.
     + apply forallb_map_const. intros h. unfold rel_act. destruct (existsb (Nat.eqb h) (sc_held sc)); reflexivity.
     + simpl. rewrite forallb_app. apply andb_true_intro. split.
       * destruct (exists_ fs (dest_of fs (sc_req sc))); simpl; [rewrite Hf|]; reflexivity.
       * simpl. rewrite Hf, Hdest. reflexivity.
-  - rewrite Hf. reflexivity.
-  - rewrite Hd. reflexivity.
-  - unfold plan_post. simpl. induction (overwritten fs tens sc) as [|h r IH]; simpl; [reflexivity|].
+  - simpl. exact Hf.
+  - simpl. exact Hd.
+  - change (forallb (safeS S) (flat_map (fun h => ARealpath (tpath tens h)
+        :: (if realpath_is_dest fs tens sc h then [AInvalidate h] else [])) (overwritten fs tens sc)) = true).
+    induction (overwritten fs tens sc) as [|h r IH]; simpl; [reflexivity|].
     destruct (realpath_is_dest fs tens sc h); simpl; exact IH.
 Qed.
 
